@@ -1,6 +1,6 @@
 (* C06 - no memory-safety violation, crash or hang on arbitrary input: the proved part is the bounds
    logic of two parsers; the run-time behaviour of the C code is observed under sanitizers *)
-From E2V Require Import Parsers.DirWalk Parsers.DirWalkProofs.
+From E2V Require Import Parsers.DirWalk Parsers.DirWalkProofs Parsers.EaValue.
 Local Open Scope N_scope.
 
 (* the directory record walk never reads outside its buffer and always ends, whatever the bytes are *)
@@ -34,6 +34,24 @@ Theorem count_tags_overread_refuted : exists l,
   count_tags 200 l (N.of_nat (length l)) 8 12 12 0 = WOOB.
 Proof. exists (repeat 0 12 ++ concat (repeat [0; 0; 0; 0; 0; 0; 0; 2] 127)). vm_compute. reflexivity. Qed.
 Print Assumptions count_tags_overread_refuted.
+
+(* an attribute value that e2fsck's pass 1 accepts lies inside the block, so hashing it reads nothing beyond the
+   block buffer: the 32-bit sum cannot have wrapped because the size is bounded first ... *)
+Theorem ea_value_check_safe : forall bs offs size,
+  bs <= 65536 -> offs < 65536 -> size < W32 ->
+  ea_value_ok bs offs size = true -> offs + size <= bs.
+Proof.
+  intros bs offs size Hb Ho Hs H. unfold ea_value_ok in H. apply andb_true_iff in H. destruct H as [H1 H2].
+  apply negb_true_iff in H1, H2. apply N.ltb_ge in H1, H2. unfold XATTR_SIZE_MAX in H1. unfold W32 in *.
+  rewrite N.mod_small in H2 by lia. exact H2.
+Qed.
+Print Assumptions ea_value_check_safe.
+
+(* ... and the sum test alone would not do: offset 4092, size 2^32 - 2048 passes it on a 4k block *)
+Theorem ea_value_sum_only_refuted : exists bs offs size,
+  bs <= 65536 /\ offs < 65536 /\ size < W32 /\ ea_value_ok_sum_only bs offs size = true /\ bs < offs + size.
+Proof. exists 4096, 4092, 4294965248. vm_compute. repeat split; reflexivity || discriminate. Qed.
+Print Assumptions ea_value_sum_only_refuted.
 
 Example walk_example : dir_block_walk ([2;0;0;0; 12;0; 1;2; 46;0;0;0] ++ [2;0;0;0; 20;0; 2;2; 46;46;0;0] ++ repeat 0 8) 32 = WOk 2.
 Proof. vm_compute. reflexivity. Qed.
